@@ -201,6 +201,57 @@ def make_body(rng, n: int, kind: str, style: str) -> bytes:
     return (ph * (n // len(ph) + 1))[:n]
 
 
+class Boxes:
+    """Payload objects as a caller holds them: bytes, or a bytearray / memoryview the caller keeps (and may send again:
+    messages with the same 'share' id are the very same object).  After the sends every kept buffer must still hold
+    what the caller put there - a later send of the same object is a message of the sequence like any other."""
+
+    def __init__(self):
+        self.shared = {}
+        self.items = []
+
+    def get(self, i, m):
+        box = m.get("box") or "bytes"
+        if box == "bytes":
+            return m["body"]
+        key = m.get("share")
+        if key is not None and key in self.shared:
+            obj = self.shared[key]
+        else:
+            obj = bytearray(m["body"])
+            if key is not None:
+                self.shared[key] = obj
+        self.items.append((i, obj, m["body"]))
+        return memoryview(obj) if box == "memoryview" else obj
+
+    def modified(self):
+        return [i for i, obj, orig in self.items if bytes(obj) != orig]
+
+
+def box_messages(rng, msgs):
+    """choose payload containers; sometimes send the same buffer object again later in the sequence"""
+    out = []
+    nshare = 0
+    for m in msgs:
+        out.append(m)
+        if m["kind"] == "close":
+            continue
+        r = rng.random()
+        if r < 0.22:
+            m["box"] = "bytearray"
+        elif r < 0.30:
+            m["box"] = "memoryview"
+        if m.get("box") and m["kind"] in ("text", "binary") and rng.random() < 0.5:
+            m["share"] = nshare
+            nshare += 1
+            out.append(dict(m))  # the same object, sent a second time (re-send / broadcast)
+    if out and out[-1]["kind"] != "close":
+        return out
+    # keep a close frame last
+    closes = [m for m in out if m["kind"] == "close"]
+    return [m for m in out if m["kind"] != "close"] + closes[:1]
+
+
 def gen_messages(rng, tier: str, allow_close: bool = True, nmax: int = 8):
     msgs = []
     n = rng.randint(1, nmax)
@@ -228,7 +279,7 @@ def gen_messages(rng, tier: str, allow_close: bool = True, nmax: int = 8):
         code = rng.choice([1000, 1001, 1002, 1003, 1007, 1008, 1009, 1010, 1011, 3000, 4999])
         reason = rng.choice(["", "bye", "κλείσιμο", "r" * 123])
         msgs.append({"kind": "close", "code": code, "reason": reason, "body": struct.pack(">H", code) + reason.encode(), "ov": None})
-    return msgs
+    return box_messages(rng, msgs)
 
 
 def gen_cfg(rng, stratum: str):
@@ -313,19 +364,21 @@ def write_sequential(L, cfg, msgs):
         with loop.running():
             w = make_writer(L, proto, tr, cfg)
 
+        boxes = Boxes()
+
         async def go():
-            for m in msgs:
+            for i, m in enumerate(msgs):
                 if m["kind"] == "close" and m.get("via_close", True):
                     await w.close(m["code"], m["reason"] if len(m["reason"]) % 2 else m["reason"].encode())
                 else:
-                    await w.send_frame(m["body"], OPC[m["kind"]], m["ov"])
+                    await w.send_frame(boxes.get(i, m), OPC[m["kind"]], m["ov"])
 
         st, task = loop.run_coro(go(), max_iters=200000)
         if not task.done():
             raise RuntimeError(f"sequential writer did not finish: {st}")
         exc = task.exception()
         left = len(w._background_tasks)
-        return bytes(tr.buf), list(tr.writes), exc, left
+        return bytes(tr.buf), list(tr.writes), exc, left, boxes.modified()
     finally:
         loop.shutdown()
 
@@ -421,8 +474,12 @@ def check_sequential(cfg, msgs, rec, rng, tier, ctx):
     L = _load()
     deflate = reader_deflate(cfg, msgs)
     witness = {"stratum": ctx, "cfg": cfg, "msgs": [{k: v for k, v in m.items()} for m in msgs]}
-    wire, writes, exc, left = write_sequential(L, cfg, msgs)
+    wire, writes, exc, left, modified = write_sequential(L, cfg, msgs)
     viol = []
+    if modified:
+        viol.append(("writer:caller-buffer-modified", f"send_frame() changed the caller's bytearray payload of message(s) {modified[:5]} (mask={cfg['mask']}, wbits={cfg['wbits']})"))
+    rec.count("boxed-payloads", sum(1 for m in msgs if m.get("box")))
+    rec.count("same-buffer-sent-twice", sum(1 for m in msgs if m.get("share") is not None) // 2)
     if exc is not None:
         viol.append((f"writer-raised:{type(exc).__name__}", f"send raised {exc!r}"))
     if left:
@@ -834,12 +891,14 @@ def run_flow(L, cfg, msgs, seg_mode, maxseg, consumer_lag, seed):
                 for _ in range(consumer_lag):
                     await asyncio.sleep(0)
 
+        boxes = Boxes()
+
         async def producer():
-            for m in msgs:
+            for i, m in enumerate(msgs):
                 if m["kind"] == "close":
                     await w.close(m["code"], m["reason"])
                 else:
-                    await w.send_frame(m["body"], OPC[m["kind"]], m["ov"])
+                    await w.send_frame(boxes.get(i, m), OPC[m["kind"]], m["ov"])
 
         cons = loop.create_task(consumer())
         prod = loop.create_task(producer())
